@@ -25,6 +25,9 @@ class Annulus(Sketch):
         inner_radius: float,
         n_segments: int = 8,
     ):
+        if inner_radius < 0:
+            raise AnnulusCreationError("Inner ring radius must not be negative!", f"Inner radius: {inner_radius}")
+
         center_point = np.asarray(center_point)
         normal = f.unit_vector(np.asarray(normal))
         outer_radius_point = np.asarray(outer_radius_point)
